@@ -9,7 +9,7 @@
  *      ops     : in:cap:dir;in:cap:dir;...  (dir 0 continue 1 flush 2 end ; in = bytes offered, cap = output capacity)
  *      -> <id> OK <framehex> <calls>   calls = consumed:produced:ret(or E<name>);...   (stops at first error)
  *  D <id> <path> <flags> <dicthex|-> <framehex|-> <capacity>              -> <id> OK <hex> [extra] | <id> ERR <name>
- *      path    : oneshot | dctx | usingDict | ddict | ddictwarm | ddictref | loaddict | refprefix | multiddict
+ *      path    : oneshot | dctx | usingDict | ddict | ddictwarm | ddictref | loaddict | refprefix | multiddict | multiddict2
  *                | stream:<inseg>:<outseg> | stableout:<inseg> | continue | inplace | block
  *      flags   : "-" or id:value,... (ZSTD_DCtx_setParameter)
  *  I <id> <framehex>       inspectors -> <id> OK fcs=<..> bound=<..> csize=<..> margin=<..> did=<..> dsize=<..>
@@ -191,6 +191,33 @@ static void cmd_D(char** t) {
         if (!ZSTD_isError(r)) r = ZSTD_DCtx_refDDict(dc, dd);
         if (!ZSTD_isError(r)) { r = ZSTD_decompressDCtx(dc, out, cap, f, fn); produced = r; }
         ZSTD_freeDDict(dd);
+    } else if (!strcmp(path, "multiddict2")) {
+        /* several DDicts referenced, the one referenced last (the active one) is a decoy with another dictID:
+         * the frame's own DDict must be picked from the table, one-shot and streaming */
+        ZSTD_DDict* dd = ZSTD_createDDict(d, dn); ZSTD_DDict* decoy = NULL;
+        int formatted = dn >= 8 && d[0] == 0x37 && d[1] == 0xA4 && d[2] == 0x30 && d[3] == 0xEC;
+        r = ZSTD_DCtx_setParameter(dc, ZSTD_d_refMultipleDDicts, ZSTD_rmd_refMultipleDDicts);
+        if (!ZSTD_isError(r)) r = ZSTD_DCtx_refDDict(dc, dd);
+        if (ZSTD_getDictID_fromFrame(f, fn) == 0) formatted = 0;   /* the frame names no dictionary: the active DDict is the only candidate */
+        if (formatted && dd) {
+            unsigned char* d2 = (unsigned char*)malloc(dn); size_t i;
+            memcpy(d2, d, dn); d2[4] ^= 0x55; if ((d2[4] | d2[5] | d2[6] | d2[7]) == 0) d2[5] = 1;
+            for (i = dn - (dn > 64 ? 32 : 0); i < dn; i++) d2[i] ^= 0xA5;   /* different content too */
+            decoy = ZSTD_createDDict(d2, dn); free(d2);
+            if (decoy && !ZSTD_isError(r)) r = ZSTD_DCtx_refDDict(dc, decoy);
+        }
+        if (!ZSTD_isError(r)) { r = ZSTD_decompressDCtx(dc, out, cap, f, fn); produced = r; }
+        if (!ZSTD_isError(r)) {   /* same table, streaming, after the decoy was made active again */
+            unsigned char* o2 = (unsigned char*)malloc(cap + 1);
+            ZSTD_inBuffer in; ZSTD_outBuffer ob; size_t r2 = 0;
+            if (decoy) r2 = ZSTD_DCtx_refDDict(dc, decoy);
+            in.src = f; in.size = fn; in.pos = 0; ob.dst = o2; ob.size = cap; ob.pos = 0;
+            while (!ZSTD_isError(r2) && in.pos < in.size) { size_t before = in.pos + ob.pos; r2 = ZSTD_decompressStream(dc, &ob, &in); if (in.pos + ob.pos == before) break; }
+            if (ZSTD_isError(r2)) r = r2;
+            else if (ob.pos != produced || memcmp(o2, out, produced)) r = (size_t)-ZSTD_error_GENERIC;
+            free(o2);
+        }
+        ZSTD_freeDDict(dd); ZSTD_freeDDict(decoy);
     } else if (!strncmp(path, "stream", 6) || !strncmp(path, "stableout", 9)) {
         unsigned long a = 0, b = 0; int stable = path[2] == 'a';
         if (stable) sscanf(path, "stableout:%lu", &a); else sscanf(path, "stream:%lu:%lu", &a, &b);
